@@ -107,7 +107,10 @@ impl EcdsaPublicParams {
             }
             _ => {
                 let opaque = if let Some(pub_len) = len {
-                    i.take_bytes(pub_len)?.freeze()
+                    // `pub_len` counts the whole public key material, including the curve OID field read above
+                    let consumed = 1 + usize::from(curve_len);
+                    ensure!(pub_len >= consumed, "invalid public key length");
+                    i.take_bytes(pub_len - consumed)?.freeze()
                 } else {
                     // Read as Mpi, not to consume the secret parameters in secret key packets
                     let p = Mpi::try_from_reader(&mut i)?;
